@@ -449,6 +449,15 @@ func isoSession(t *testing.T, out *[]isoEvent, rnd *rand.Rand, src string, inter
 		coldWave := cold && round*width+width <= len(isoColdWant)
 		// bursts with a theme make the rare collisions likely: all creates, all sums, all generic calls ...
 		theme := rnd.Intn(6)
+		// the first provider burst of a fresh server is all creates: every request touches the table for the first
+		// time at once (lazily created structures are a classic place for a lost update)
+		coldRounds := 0
+		if cold {
+			coldRounds = len(isoColdWant) / width
+		}
+		if !pureOnly && round == coldRounds {
+			theme = 0
+		}
 		for i := range jobs {
 			jobs[i] = isoRandomJob(rnd, pureOnly, maxSum)
 			switch {
